@@ -26,7 +26,7 @@ type c03path struct {
 func c03paths() []c03path {
 	var out []c03path
 	maxLen := vk.Pick(6, 7)
-	gen := func(nd int, small bool, maxLen int) {
+	gen := func(nd int, small bool, maxLen int, faults bool) {
 		qos := []int{1, 2, 1}[:nd]
 		sess := []int{0, 0, 1}[:nd]
 		type st struct {
@@ -36,12 +36,14 @@ func c03paths() []c03path {
 			stray   int
 			silent  int
 			dropped []bool
+			collide int // deliveries whose identifier the subscriber has used for an inbound QoS 2 PUBLISH
+			wfail   int
 		}
 		var rec func(ev []string, s st)
 		rec = func(ev []string, s st) {
-			if len(ev) > 0 {
+			if len(ev) > 0 && (!faults || s.collide+s.wfail > 0) {
 				out = append(out, c03path{small, nd, append([]string{}, ev...), false})
-				if nd == 2 && len(ev) <= vk.Pick(3, 4) {
+				if nd == 2 && len(ev) <= vk.Pick(3, 4) && !faults {
 					out = append(out, c03path{small, nd, append([]string{}, ev...), true})
 				}
 			}
@@ -49,7 +51,7 @@ func c03paths() []c03path {
 				return
 			}
 			clone := func() st {
-				return st{append([]int{}, s.acks...), append([]int{}, s.wt...), s.wid, s.stray, s.silent, append([]bool{}, s.dropped...)}
+				return st{append([]int{}, s.acks...), append([]int{}, s.wt...), s.wid, s.stray, s.silent, append([]bool{}, s.dropped...), s.collide, s.wfail}
 			}
 			anyPending := false
 			for j := 0; j < nd; j++ {
@@ -66,12 +68,31 @@ func c03paths() []c03path {
 					}
 				}
 			}
-			if s.wid < 1 {
+			if faults {
+				// the subscriber publishes at QoS 2 under the identifier of a delivery the broker has in flight to it
+				// (client and broker number their packets independently)
+				for j := 0; j < nd; j++ {
+					if s.acks[j] < qos[j] && !s.dropped[sess[j]] && s.collide&(1<<j) == 0 {
+						// the broker may end the session at this point: the run follows what it observes and the rest of
+						// the script then applies to the surviving deliveries only
+						n := clone()
+						n.collide |= 1 << j
+						rec(append(ev, fmt.Sprintf("inbound-qos2-same-id%d", j)), n)
+					}
+				}
+				// the socket refuses the broker's writes during one retransmission period, then works again
+				if s.wfail < 1 && anyPending {
+					n := clone()
+					n.wfail++
+					rec(append(ev, "silent-writes-fail"), n)
+				}
+			}
+			if s.wid < 1 && !faults {
 				n := clone()
 				n.wid++
 				rec(append(ev, "wrongid"), n)
 			}
-			if s.stray < 1 && anyPending {
+			if s.stray < 1 && anyPending && !faults {
 				n := clone()
 				n.stray++
 				rec(append(ev, "stray-qos2-acks"), n)
@@ -98,13 +119,15 @@ func c03paths() []c03path {
 		if nd == 3 {
 			ns = 2
 		}
-		rec(nil, st{make([]int, nd), make([]int, nd), 0, 0, 0, make([]bool, ns)})
+		rec(nil, st{make([]int, nd), make([]int, nd), 0, 0, 0, make([]bool, ns), 0, 0})
 	}
-	gen(2, false, maxLen)
-	gen(2, true, maxLen)
+	gen(2, false, maxLen, false)
+	gen(2, true, maxLen, false)
+	gen(2, true, vk.Pick(4, 5), true)
 	if vk.Thorough() {
-		gen(3, true, 6)
-		gen(3, false, 5)
+		gen(3, true, 6, false)
+		gen(3, false, 5, false)
+		gen(2, false, 4, true)
 	}
 	return out
 }
@@ -225,7 +248,8 @@ func TestC03Retransmission(t *testing.T) {
 					}
 				}
 				dropped := make([]bool, nSess)
-				sawRetransmit, sawQoS2Done := false, false
+				endedByBroker := make([]bool, nSess)
+				sawRetransmit, sawQoS2Done, sawWriteFail := false, false, false
 				checkInvariants := func(after string) bool {
 					for _, d := range ds {
 						// same identifier / payload on every copy
@@ -253,8 +277,8 @@ func TestC03Retransmission(t *testing.T) {
 							seen[d.id] = d.topic
 						}
 					}
-					for _, c := range subs {
-						if c.BrokerClosed() {
+					for k, c := range subs {
+						if c.BrokerClosed() && !endedByBroker[k] {
 							viol("c03-session-ended", "after %s: the broker ended %s's session", after, c.Name)
 							return false
 						}
@@ -263,7 +287,50 @@ func TestC03Retransmission(t *testing.T) {
 				}
 				for _, ev := range p.Events {
 					var j int
+					if n, _ := fmt.Sscanf(ev[strings.LastIndexAny(ev, "abcdefghijklmnopqrstuvwxyz-")+1:], "%d", &j); n == 1 && !strings.HasPrefix(ev, "drop") && !strings.HasPrefix(ev, "displace") && dropped[ds[j].sess] {
+						continue // the session of this delivery is gone (ended by the broker at a colliding PUBLISH)
+					}
+					if (ev == "displace0" || ev == "drop0") && dropped[0] || ev == "drop1" && dropped[1] {
+						continue
+					}
 					switch {
+					case strings.HasPrefix(ev, "inbound-qos2-same-id"):
+						fmt.Sscanf(ev, "inbound-qos2-same-id%d", &j)
+						d := ds[j]
+						c := subs[d.sess]
+						c.Send(&packet.Publish{Header: &packet.Header{Qos: 2}, MessageId: d.id, Topic: []byte("elsewhere/x"), Payload: []byte("inbound")})
+						w.Step()
+						if c.BrokerClosed() {
+							// allowed: the session ended, so every delivery to it is over and its identifiers must come back
+							dropped[d.sess] = true
+							endedByBroker[d.sess] = true
+							rep.Extra["paths_where_colliding_publish_ended_the_session"] = asInt(rep.Extra["paths_where_colliding_publish_ended_the_session"]) + 1
+						}
+					case ev == "silent-writes-fail":
+						var latest time.Time
+						w.mu.Lock()
+						for _, ai := range w.Node(1).AckInserts {
+							if ai.Err == "" && ai.Deadline.After(latest) {
+								latest = ai.Deadline
+							}
+						}
+						w.mu.Unlock()
+						for k, c := range subs {
+							if !dropped[k] {
+								c.FailBrokerWrites(true)
+							}
+						}
+						wait := time.Until(latest)
+						if wait < 0 {
+							wait = 0
+						}
+						w.Idle(wait + 500*time.Millisecond) // exactly one retransmission round hits the failing socket
+						for k, c := range subs {
+							if !dropped[k] {
+								c.FailBrokerWrites(false)
+							}
+						}
+						sawWriteFail = true
 					case strings.HasPrefix(ev, "ack"):
 						fmt.Sscanf(ev, "ack%d", &j)
 						d := ds[j]
@@ -456,6 +523,9 @@ func TestC03Retransmission(t *testing.T) {
 					rep.Nontrivial++
 					rep.Extra["paths_with_retransmission"] = asInt(rep.Extra["paths_with_retransmission"]) + 1
 				}
+				if sawWriteFail {
+					rep.Extra["paths_with_failed_retransmission_write"] = asInt(rep.Extra["paths_with_failed_retransmission_write"]) + 1
+				}
 				if sawQoS2Done {
 					rep.Extra["paths_with_completed_qos2"] = asInt(rep.Extra["paths_with_completed_qos2"]) + 1
 				}
@@ -469,7 +539,7 @@ func TestC03Retransmission(t *testing.T) {
 		},
 		func(i int) any { return paths[i] },
 		func(rep *vk.Report) {
-			rep.Rule = "paths = client response scripts over {ack_j, wrongtype_j, wrongid, silent, drop_k} for 2 (thorough: also 3) in-flight deliveries (QoS 1 and QoS 2, 1-2 sessions), production and 3-identifier pools; all interleavings with bounded self-loops; silence advances past the deadline the implementation registered + 2.5 s; non-trivial = paths with at least one observed retransmission"
+			rep.Rule = "paths = client response scripts over {ack_j, wrongtype_j, wrongid, silent, drop_k} (plus, in a shorter family, {inbound QoS 2 PUBLISH under the identifier of in-flight delivery j, one retransmission round whose socket writes fail}) for 2 (thorough: also 3) in-flight deliveries (QoS 1 and QoS 2, 1-2 sessions), production and 3-identifier pools; all interleavings with bounded self-loops; silence advances past the deadline the implementation registered + 2.5 s; non-trivial = paths with at least one observed retransmission"
 			rep.Bounds["max_events"] = vk.Pick(6, 7)
 			rep.Bounds["horizon"] = "60 s virtual after the script"
 			rep.Floor("retransmissions", 10, int64(asInt(rep.Extra["paths_with_retransmission"])))
